@@ -20,6 +20,18 @@ def len_of(interp, v):
 
 
 def minmax(interp, argv, is_max):
+    if len(argv) == 1 and argv[0].kind == 'keyvals' and not is_max:
+        # trusted contract of min() over the values of a dict: the least value, ValueError on an empty dict
+        km = argv[0].km
+        c = z3.Int('c?min')
+        ctx = interp.ctx
+        wit = fresh('argmin', Int)
+        m = fresh('min', Int)
+        if ctx.branch(z3.Not(z3.Exists([c], km.dom(c))), 'min(empty)'):
+            raise PyRaise('ValueError', 'min() arg is an empty sequence')
+        ctx.assume(z3.And(km.dom(wit), km.val(wit) == m), 'call')
+        ctx.assume(z3.ForAll([c], z3.Implies(km.dom(c), km.val(c) >= m)), 'call')
+        return VInt(m)
     if len(argv) == 1:
         items = interp.static_items(argv[0])
         if items is None:
@@ -178,6 +190,58 @@ def symbolic_comprehension(interp, e, fr, it, what):
     the same key): dom(q) <=> exists i<n. key(i) == q;  get(q) = val(last(q)), last(q) the largest such index"""
     import ast as _ast
     g = e.generators[0]
+    if it.kind in ('optbag', 'keymap', 'keyset', 'list') and (it.kind != 'list' or all(x.kind == 'path' for x in it.items)):
+        from .pathsmodel import VPath, VPathKey, VKeyMap, VKeySet, bag_of
+        ctx = interp.ctx
+        if it.kind == 'list':
+            if not it.items:
+                raise Undecided('comprehension over an empty literal list')
+            it = bag_of(it.items[0].w, it.items)
+        w = it.w
+        c0 = fresh('c0', Int)
+        saved = dict(fr.env)
+        if it.kind == 'optbag':
+            i_ = z3.Int('i?cb')
+            member = lambda c: z3.Exists([i_], z3.And(inb(i_, w.n), it.cnt[i_] >= 1, w.cid(i_) == c))
+            interp.assign(g.target, VPath(w, c0), fr)
+        elif it.kind == 'keymap':
+            member = it.dom
+            interp.assign(g.target, VPathKey(w, c0), fr)
+        else:
+            member = it.member
+            interp.assign(g.target, VPathKey(w, c0), fr)
+        # the element expressions are evaluated for a generic member c0 of the collection, in a scratch scope: member(c0) is assumed
+        # only while they are evaluated (it prunes e.g. the KeyError of d[x] for x in d), and whatever the evaluation adds to the
+        # path condition about the placeholder c0 is dropped again - only the resulting formulas (guarded by member) are kept
+        n_h, n_pc = len(ctx.hyps), len(ctx.pc)
+        ctx.solver.push()
+        ctx.solver.add(member(c0))
+        try:
+            conds = []
+            for cnd in g.ifs:
+                t_ = interp.truth(interp.eval(cnd, fr))
+                conds.append(z3.BoolVal(t_) if isinstance(t_, bool) else t_)
+            if what == 'dict':
+                kv, vv = interp.eval(e.key, fr), interp.eval(e.value, fr)
+            else:
+                kv, vv = interp.eval(e.elt, fr), None
+        finally:
+            ctx.solver.pop()
+            del ctx.hyps[n_h:]
+            del ctx.hyp_cats[n_h:]
+            del ctx.pc[n_pc:]
+        fr.env.clear()
+        fr.env.update(saved)
+        if kv.kind not in ('pathkey', 'path') or not kv.c.eq(c0):
+            raise Undecided('comprehension that re-keys its elements')
+        sub = lambda f: (lambda c: z3.substitute(f, (c0, c)))
+        cond_f = z3.And(*conds) if conds else z3.BoolVal(True)
+        mem2 = lambda c: z3.And(member(c), sub(cond_f)(c))
+        if what == 'dict':
+            if vv.kind != 'int':
+                raise Undecided('dict comprehension with non-int values')
+            return VKeyMap(w, mem2, sub(vv.z))
+        return VKeySet(w, mem2, as_lists=(kv.kind == 'path'))
     if it.kind == 'nodedict' and what == 'list' and not g.ifs and isinstance(g.target, _ast.Name) \
             and isinstance(e.elt, _ast.Name) and e.elt.id == g.target.id:
         # [k for k in self._node]: the nodes, each once, in unspecified order (a snapshot of the key set)
